@@ -25,21 +25,29 @@ def run(ctx):
         "reply fuzz: fixed tables of malformed HTTP bodies / UDP datagram sequences plus seeded random mutations; 'read beyond the limit' is judged "
         "by the bytes the scripted server could push (limit + 12 MiB of kernel buffering); IPv6 literals in dictionary-model replies are counted, not judged",
     ]
-    # 1. design level
-    base.mc_pass(ctx, "MC_Announce_tier2.cfg")
-    base.mc_asis(ctx, "MC_Announce_tier2_asis.cfg", expect_tag="C16.tier.next")
-    base.mc_pass(ctx, "MC_Announce_udp.cfg")
-    base.mc_asis(ctx, "MC_Announce_udp_asis.cfg", expect_live=True)
-    if not ctx.quick():
-        base.mc_pass(ctx, "MC_Announce_tier.cfg", timeout=2400)
-        base.mc_pass(ctx, "MC_Announce_udp_full.cfg", timeout=2400)
-    # 2. implementation -> specification
+    # 2. implementation -> specification (driver started first: it runs while TLC works on step 1)
     drv = ctx.build_go("c16")
     tp = ctx.path("c16.ndjson")
     args = ["-seed", str(ctx.seed), "-out", tp, "-root", ctx.path("drv", "x"), "-par", str(ctx.pick(14, 16)),
             "-ntier", str(ctx.pick(24, 160)), "-nshare", str(ctx.pick(3, 9)), "-nsess", str(ctx.pick(0, 6)), "-nfuzz", str(ctx.pick(60, 1500))]
-    r = ctx.run_drv(drv, args, timeout=ctx.pick(400, 1500))
-    results = json.loads(r.stdout.strip().splitlines()[-1])
+    # TLC as generator: every ok/fail answer pattern of length L over the announces of a tier (replayed for 2 and 3 members)
+    pats, _ = ctx.tlc_gen("MC_AnnounceGen", ctx.pick("MC_AnnounceGen_5.cfg", "MC_AnnounceGen_8.cfg"))
+    if len(pats) != ctx.pick(32, 256):
+        raise vlib.MachineryError("generator produced %d patterns" % len(pats))
+    gp = ctx.path("gpats.ndjson")
+    vlib.write_ndjson(gp, pats)
+    args += ["-gpats", gp]
+    ctx.extra["tlc_generated_patterns"] = len(pats)
+    join = base.start_driver(ctx, drv, args, ctx.pick(400, 1500))
+    # 1. design level
+    jobs = [("pass", "MC_Announce_tier2.cfg", {}),
+            ("asis", "MC_Announce_tier2_asis.cfg", {"expect_tag": "C16.tier.next"}),
+            ("pass", "MC_Announce_udp.cfg", {}),
+            ("asis", "MC_Announce_udp_asis.cfg", {"expect_live": True})]
+    if not ctx.quick():
+        jobs += [("pass", "MC_Announce_tier.cfg", {"timeout": 2400}), ("pass", "MC_Announce_udp_full.cfg", {"timeout": 2400})]
+    base.mc_all(ctx, jobs)
+    results = join()
     base.drop_failed(ctx, results, max_frac=0.2)
     if any(x["kind"] == "fuzz" and x.get("err") for x in results):
         raise vlib.MachineryError("reply fuzz did not produce results: %s" % [x for x in results if x["kind"] == "fuzz"])
